@@ -149,10 +149,13 @@ pub fn check_stream(doc: &Doc, trace: &[Rec], reference: &[Rec]) -> Result<(usiz
     let mut known: Option<(String, String)> = None;
     let mut known_hits = 0usize;
     let mut last_sel: Vec<String> = Vec::new();
+    // a prescribed re-entry (known finding) happened in the current microstep
+    let mut known_in_step = false;
     for (i, r) in trace.iter().enumerate() {
         match r {
             Rec::Sel(l) => {
                 in_step_entered = false;
+                known_in_step = false;
                 last_sel = l.clone();
             }
             Rec::Enter(s) => {
@@ -163,6 +166,7 @@ pub fn check_stream(doc: &Doc, trace: &[Rec], reference: &[Rec]) -> Result<(usiz
                     let d = format!("record {}: state {} entered while already active", i, s);
                     if prescribed {
                         known_hits += 1;
+                        known_in_step = true;
                         if known.is_none() {
                             known = Some(("entered-while-active/prescribed-by-W3C-history-ancestor-rule".into(), d));
                         }
@@ -182,6 +186,12 @@ pub fn check_stream(doc: &Doc, trace: &[Rec], reference: &[Rec]) -> Result<(usiz
             Rec::Cfg(c) | Rec::Idle(c, _) => {
                 snapshots += 1;
                 if let Err(e) = legal_configuration(doc, c) {
+                    if known_in_step {
+                        // second symptom of the same root cause: the re-entered (still active) ancestors complete
+                        // their regions with default children next to the children that are already active.
+                        // From here on the stream of this case carries the damage; it is not scanned further.
+                        return Err(("illegal-configuration/after-W3C-history-ancestor-re-entry".into(), format!("record {}: {}", i, e)));
+                    }
                     return Err(("illegal-configuration".into(), format!("record {}: {}", i, e)));
                 }
                 let snap: BTreeSet<String> = c.iter().cloned().collect();
